@@ -5,8 +5,8 @@ from common import Fr, enc_q, dec_q, enc_f, dec_f, close, rng
 import gmgen
 
 LEAN_MODULE = 'PGM.Properties.C01'
-LEAN_EXTRA = ['PGM.Properties.C01B', 'PGM.Properties.C01G']
-TRANSLATORS = ('py2gm',)      # belief_propagation, variable elimination, datavector, mle of graphical_model.py -> Generated/GraphicalModelG.lean
+LEAN_EXTRA = ['PGM.Properties.C01B', 'PGM.Properties.C01G', 'PGM.Properties.C01E']
+TRANSLATORS = ('py2gm', 'py2jt', 'py2gminit')      # py2gm: belief_propagation, variable elimination, datavector, mle of graphical_model.py -> Generated/GraphicalModelG.lean (C01G); py2jt: junction_tree.py -> Generated/JunctionTreeG.lean; py2gminit: GraphicalModel.__init__ -> Generated/GraphicalModelInitG.lean (imports both; C01E: gen_exact_inference_end_to_end)
 TRUSTED = ['Lean 4.33 kernel', 'axioms: propext, Classical.choice, Quot.sound',
            'hand model PGM/Model/GM.lean (belief_propagation transcribed over the Factor model) tied to src/mbi/graphical_model.py by this correspondence run',
            'junction tree taken from the implementation and validated by the verified checkJT in the same run (C12)',
